@@ -39,7 +39,7 @@ pub fn prop() -> Prop {
         stub: &["transport", "store", "glue", "random source (recording)"],
         independent: &["Python reference implementation of RFC 9591 / BIP-340 / BIP-341 (ref/frost_ref.py, curves.py, hashes.py, bip340_ref.py)"],
         ref_sample: |_| 0,
-        required_probes: &["session_recorded", "signers_ge_4", "ids_derived", "ids_scalar", "ids_u16ext", "msg_empty", "msg_multiblock", "keys_dkg", "taproot_tweak", "single_sig_lib_made", "single_sig_ref_made", "ident_swept"],
+        required_probes: &["session_recorded", "signers_ge_4", "signers_ge_9", "ids_derived", "ids_scalar", "ids_u16ext", "msg_empty", "msg_multiblock", "keys_dkg", "taproot_tweak", "single_sig_lib_made", "single_sig_ref_made", "ident_swept"],
         prepare: Some(prepare),
     }
 }
@@ -78,6 +78,11 @@ fn gen_c<C: Suite>(seed: u64, run: u64, tier: Tier) -> Scenario {
     };
     let (mut n, mut t) = gen_nt(&mut p, 2, max_n);
     let dkg = p.chance(1, 4);
+    if !dkg && !slow && p.chance(1, 14) {
+        // larger signer sets also in the quick tier
+        n = p.range(9, if C::COST >= 3 { 14 } else { 20 }) as u16;
+        t = p.range(2, n as u64) as u16;
+    }
     if dkg {
         n = n.min(if slow { 3 } else { 5 });
         t = t.min(n);
@@ -199,6 +204,9 @@ fn exec_c<C: Suite>(scen: &Scenario) -> Exec {
         rep.probe("session_recorded");
         if shares.len() >= 4 {
             rep.probe("signers_ge_4");
+        }
+        if shares.len() >= 9 {
+            rep.probe("signers_ge_9");
         }
         if package.message().is_empty() {
             rep.probe("msg_empty");
